@@ -331,12 +331,13 @@ func (h *HarnessRun) obligationAt(e *Exec, s *State, cond *Term, id, kind, where
 	if len(classes) > 0 {
 		// (ii) each listed class: is the known defect still there?
 		for i, c := range classes {
-			if _, seen := h.KnownHits[classNames[i]]; seen {
+			hk := classNames[i] + "|" + id
+			if _, seen := h.KnownHits[hk]; seen {
 				continue
 			}
 			r := e.pf.Check(append(append([]*Term(nil), base...), c), nondetVars(s))
 			if r.Status == Sat {
-				h.KnownHits[classNames[i]] = fmt.Sprintf("%s/%s %v", h.Spec.Name, id, compactModel(modelStrings(s, r.Model)))
+				h.KnownHits[hk] = fmt.Sprintf("%s/%s %v", h.Spec.Name, id, compactModel(modelStrings(s, r.Model)))
 			}
 		}
 		// (i) outside every listed class the obligation must hold
